@@ -116,6 +116,45 @@ def run(ctx):
             camp.sh.maybe_flush()
             if i < 3:
                 ctx.sample({"static": ps, "streaming": pd, "kw": kw})
+        # members that measure (Aligned, Padded around a member) or probe (Optional, GreedyRange) inside a region, on both paths:
+        # the streaming wrapper's position and its behaviour at the end of the data are part of what such members see
+        W = A.T("_params", "w")
+        def shapes(w):
+            return [([("x", A.BitsInteger(w)), ("y", A.Aligned(8, A.BitsInteger(3))), ("z", A.Alias("Octet"))], {"x": 200, "y": 5, "z": 17}, 8),
+                    ([("x", A.Alias("Nibble")), ("y", A.Padded(12, A.Alias("Octet"))), ("z", A.BitsInteger(w))], {"x": 9, "y": 129, "z": 3}, 8),
+                    ([("x", A.BitsInteger(w)), ("y", A.Aligned(16, A.Alias("Octet")))], {"x": 3, "y": 255}, 8),
+                    ([("x", A.BitsInteger(w)), ("y", A.Aligned(16, A.Struct(A.Renamed("k", A.Alias("Octet")), A.Renamed("e", A.If(A.Bin("==", A.T("k"), A.C(255)), A.Alias("Octet"))))))], {"x": 1, "y": {"k": 3, "e": None}}, 8),
+                    ([("a", A.BitsInteger(w)), ("o", A.Optional(A.BitsInteger(16))), ("b", A.Alias("Nibble"))], {"a": 5, "o": None, "b": 6}, 4),
+                    ([("a", A.BitsInteger(w)), ("o", A.Optional(A.BitsInteger(16))), ("b", A.Alias("Nibble"))], {"a": 5, "o": 0x1234, "b": 6}, 4),
+                    ([("a", A.BitsInteger(w)), ("z", A.Bytewise(A.Aligned(2, A.Alias("Byte")))), ("b", A.Alias("Nibble"))], {"a": 5, "z": 7, "b": 6}, 4)]
+        for idx in range(len(shapes(8))):
+            w = shapes(8)[idx][2]
+            mem_s, val, _ = shapes(w)[idx]
+            mem_d, _, _ = shapes(W)[idx]
+            ps = A.Bitwise(A.Struct(*[A.Renamed(nm, m) for nm, m in mem_s]))
+            pd = A.Bitwise(A.Struct(*[A.Renamed(nm, m) for nm, m in mem_d]))
+            cs_, cd_ = campaign.realizable(ps), campaign.realizable(pd)
+            if cs_ is None or cd_ is None:
+                continue
+            kw = {"w": w}
+            ib1, b1 = camp.build(ps, cs_, val, b"", kw)
+            ib2, b2 = camp.build(pd, cd_, val, b"", kw)
+            camp.sh.session("C10.paths", [ib1, ib2])
+            datas = [bytes(b1["res"]["v"]["b"])] if b1["res"]["ok"] else []
+            datas += [b"\x56", b"\x51\x23\x46", b"\xff\x00\x81", b"\x03\x00", b"\xff\x07\x00", b"\x10\x00\x00\x00"]
+            for data in datas:
+                ip1, p1 = camp.parse(ps, cs_, data, 0, kw)
+                ip2, p2 = camp.parse(pd, cd_, data, 0, kw)
+                camp.sh.session("C10.paths", [ip1, ip2])
+                nt += 1
+        # probes that exist on the streaming path only (no static size): judged against the specification
+        for prog in (A.Bitwise(A.Struct(A.Renamed("r", A.GreedyRange(A.BitsInteger(12))), A.Renamed("n", A.Alias("Nibble")))),
+                     A.Bitwise(A.Struct(A.Renamed("a", A.Alias("Nibble")), A.Renamed("o", A.Optional(A.BitsInteger(16))), A.Renamed("b", A.Alias("Nibble")))),
+                     A.Bitwise(A.Struct(A.Renamed("a", A.Alias("Nibble")), A.Renamed("rest", A.GreedyRange(A.Alias("Nibble")))))):
+            con = campaign.realizable(prog)
+            for data in (b"", b"\x12", b"\x12\x34", b"\x12\x34\x56", b"\xff\xff\xff\xff", b"\x00\x00\x00"):
+                camp.parse(prog, con, data, 0, {})
+                nt += 1
         vs = camp.validate()
         campaign.judge(ctx, camp, vs, conformance=lambda v, m: campaign.kind_of(v) in common.VALUE_KINDS, clauses=CLAUSES)
         ctx.cov["distinct_nontrivial"] = nt
